@@ -80,8 +80,8 @@ JOBLIFE = {
     "name": "joblife",
     "vh": "joblife",
     "design": {
-        "quick": _jl_design(["core", "foreign", "crash", "ext"], 600),
-        "thorough": _jl_design(["core", "kill0", "kill1", "fault", "del", "ext", "crash", "any2", "all2", "foreign", "forbid", "lagq"], 2400),
+        "quick": _jl_design(["core", "foreign", "crash", "ext", "reject"], 600),
+        "thorough": _jl_design(["core", "kill0", "kill1", "fault", "del", "ext", "crash", "any2", "all2", "foreign", "forbid", "lagq", "reject"], 2400),
     },
     "sim": {"quick": _jl_sims(12), "thorough": _jl_sims(400)},
     "harness": {
